@@ -37,7 +37,9 @@ RULE = ('One host (PubSubManager / AsyncPubSubManager subclass, real '
         'subscribed; abandoned async generators are finalised by loop tasks '
         'as in asyncio. Non-trivial: >=3 different kinds of bad message and '
         'one fault in one sequence, or a listener restart followed by a '
-        'valid message.')
+        'valid message. The harness backend counts its _listen() iterators: '
+        'a subscription may be given up only when the backend failed '
+        '(injected), never because of a message.')
 ASSUMPTIONS = [
     'pickles are only built from generated data (no hostile opcodes)',
     'in-memory channel; the Redis managers are driven separately against a '
